@@ -8,16 +8,17 @@
    PROVED, every dimension / signature / basis (wf_alg A = true), every commutative ring, sparse
    operands in any key order:
      C07_inv_sound, C07_inverse_unique, C07_zde_iff, C07_no_other_zde, C07_inv_model_sound, C07_div,
-     C07_rdiv, C07_power_supply, C07_shirokov_partial.
-   PROVED, d <= 3, every basis spelled in ascending generator order (all default bases: every
+     C07_rdiv, C07_power_supply, and C07_shirokov_partial, C07_inv_shirokov_partial (both under the
+     proviso that the loop stops by its break).
+   PROVED, d <= 4, every basis spelled in ascending generator order (all default bases: every
    signature over {1,-1,0} in any order, start index 0..2), ALL operands:
-     C07_hitzer_le3, C07_hitzer_default_le3, C07_inv_le3, C07_inv_default_le3, C07_zde_only_singular_le3,
-     C07_inv_le3_complete.
+     C07_hitzer_le4, C07_hitzer_default_le4, C07_inv_le4, C07_inv_default_le4, C07_zde_only_singular_le4,
+     C07_inv_le4_complete.
    NOT PROVED (left to the direct oracle of tools/props/C07.py, labelled exploration in the evidence):
-     the closed forms for d = 4, 5 (x * num scalar), that the Shirokov loop reaches its `break` within
+     the closed form for d = 5 (x * num scalar), that the Shirokov loop reaches its `break` within
      2^ceil(d/2) rounds for d >= 6 (C07_shirokov_partial assumes the break), and "ZeroDivisionError
-     only for singular operands" beyond d = 3.  Custom bases with non-ascending spellings follow from
-     the d <= 3 statements by the C14 relabelling isomorphism (Theory/Relabel.v); not composed here. *)
+     only for singular operands" beyond d = 4.  Custom bases with non-ascending spellings follow from
+     the d <= 4 statements by the C14 relabelling isomorphism (Theory/Relabel.v); not composed here. *)
 From Coq Require Import List ZArith Ring_theory.
 From KV Require Import Model.All Model.Inverse Theory.WF Theory.Sparse Theory.Ops Theory.OpsWF
   Theory.Algebra Theory.Inverse Theory.Hitzer.
@@ -99,64 +100,70 @@ Section AnyRing.
     filter_ok A (Composite.filter_nz z).
   Proof. exact (filter_ok_nz R R0 R1 Radd Rmul Rsub Ropp). Qed.
 
-  (* ---------- closed forms, d <= 3 ---------- *)
+  (* ---------- closed forms, d <= 4 ---------- *)
 
-  Theorem C07_hitzer_le3 : forall A, wf_alg A = true -> ascending_ok A = true -> (a_d A <= 3)%nat ->
+  (* for ALL operands: x * num and num * x are the scalar den; den = 0 only for singular operands *)
+  Theorem C07_hitzer_le4 : forall A, wf_alg A = true -> ascending_ok A = true -> (a_d A <= 4)%nat ->
     forall F, filter_ok A F -> forall x : mv R, wfmv A x ->
     exists num, hitzer_num O F A x = Ok num /\ wfmv A num /\
       let den := hitzer_den O F A x num in
-      gp O A x num == scal den one /\ gp O A num x == scal den one.
+      gp O A x num == scal den one /\ gp O A num x == scal den one /\
+      (den = R0 -> R1 <> R0 -> ~ exists y, wfmv A y /\ gp O A x y == one /\ gp O A y x == one).
   Proof.
     intros A Hwf Hasc Hd F HF x Hx.
-    exact (hitzer_le3 R R0 R1 Radd Rmul Rsub Ropp Rth A (wf_sign_hyps A Hwf) Hasc F HF x Hd Hx).
+    exact (hitzer_le4 R R0 R1 Radd Rmul Rsub Ropp Rth A (wf_sign_hyps A Hwf) Hasc F HF Hd x Hx).
   Qed.
 
-  Theorem C07_inv_le3 : forall A, wf_alg A = true -> ascending_ok A = true -> (a_d A <= 3)%nat ->
+  (* x * x.inv() = x.inv() * x = 1 whenever x.inv() returns *)
+  Theorem C07_inv_le4 : forall A, wf_alg A = true -> ascending_ok A = true -> (a_d A <= 4)%nat ->
     forall F, filter_ok A F -> forall (x r : mv R), wfmv A x ->
     (forall b, isz b = false -> Rmul b (dv R1 b) = R1) ->
     inv_model O dv isz F A x = Ok r -> gp O A x r == one /\ gp O A r x == one.
   Proof.
     intros A Hwf Hasc Hd F HF x r.
-    exact (inv_le3_sound R R0 R1 Radd Rmul Rsub Ropp Rth A (wf_sign_hyps A Hwf) Hasc dv isz F HF Hd x r).
+    exact (inv_le4_sound R R0 R1 Radd Rmul Rsub Ropp Rth A (wf_sign_hyps A Hwf) Hasc dv isz F HF Hd x r).
   Qed.
 
-  Theorem C07_zde_only_singular_le3 : forall A, wf_alg A = true -> ascending_ok A = true -> (a_d A <= 3)%nat ->
+  (* ZeroDivisionError only for operands that have no inverse *)
+  Theorem C07_zde_only_singular_le4 : forall A, wf_alg A = true -> ascending_ok A = true -> (a_d A <= 4)%nat ->
     forall F, filter_ok A F -> forall x : mv R, wfmv A x -> R1 <> R0 -> (forall r, isz r = true -> r = R0) ->
     inv_model O dv isz F A x = Err EZeroDiv ->
     ~ exists y, wfmv A y /\ gp O A x y == one /\ gp O A y x == one.
   Proof.
     intros A Hwf Hasc Hd F HF x.
-    exact (zde_only_singular_le3 R R0 R1 Radd Rmul Rsub Ropp Rth A (wf_sign_hyps A Hwf) Hasc dv isz F HF Hd x).
+    exact (zde_only_singular_le4 R R0 R1 Radd Rmul Rsub Ropp Rth A (wf_sign_hyps A Hwf) Hasc dv isz F HF Hd x).
   Qed.
 
-  (* over a field: a value exactly for the invertible operands, ZeroDivisionError exactly for the others *)
-  Theorem C07_inv_le3_complete : forall A, wf_alg A = true -> ascending_ok A = true -> (a_d A <= 3)%nat ->
+  (* over a field: a value exactly for the invertible operands, ZeroDivisionError exactly for the others,
+     and no other outcome *)
+  Theorem C07_inv_le4_complete : forall A, wf_alg A = true -> ascending_ok A = true -> (a_d A <= 4)%nat ->
     forall F, filter_ok A F -> forall x : mv R, wfmv A x -> R1 <> R0 ->
     (forall r, isz r = true -> r = R0) -> (forall b, isz b = false -> Rmul b (dv R1 b) = R1) ->
     ((exists y, wfmv A y /\ gp O A x y == one /\ gp O A y x == one) <-> exists r, inv_model O dv isz F A x = Ok r)
     /\ (~ (exists y, wfmv A y /\ gp O A x y == one /\ gp O A y x == one) <-> inv_model O dv isz F A x = Err EZeroDiv).
   Proof.
     intros A Hwf Hasc Hd F HF x.
-    exact (inv_le3_complete R R0 R1 Radd Rmul Rsub Ropp Rth A (wf_sign_hyps A Hwf) Hasc dv isz F HF Hd x).
+    exact (inv_le4_complete R R0 R1 Radd Rmul Rsub Ropp Rth A (wf_sign_hyps A Hwf) Hasc dv isz F HF Hd x).
   Qed.
 
-  (* every default basis up to three dimensions: all 1 + 3 + 9 + 27 signatures in every order *)
-  Theorem C07_hitzer_default_le3 : forall sig start g,
-    (length sig <= 3)%nat -> Forall (fun s => s = 1 \/ s = -1 \/ s = 0) sig ->
+  (* every default basis up to four dimensions: all 1 + 3 + 9 + 27 + 81 signatures in every order *)
+  Theorem C07_hitzer_default_le4 : forall sig start g,
+    (length sig <= 4)%nat -> Forall (fun s => s = 1 \/ s = -1 \/ s = 0) sig ->
     (start = 0 \/ start = 1 \/ start = 2) ->
     let A := mk_default sig start g in
     forall F, filter_ok A F -> forall x : mv R, wfmv A x ->
     exists num, hitzer_num O F A x = Ok num /\ wfmv A num /\
       let den := hitzer_den O F A x num in
-      gp O A x num == scal den one /\ gp O A num x == scal den one.
+      gp O A x num == scal den one /\ gp O A num x == scal den one /\
+      (den = R0 -> R1 <> R0 -> ~ exists y, wfmv A y /\ gp O A x y == one /\ gp O A y x == one).
   Proof.
     intros sig start g Hl Hsig Hst A F HF x Hx.
-    destruct (default_le3_ok sig start g Hl Hsig Hst) as (SH & Hasc & Hd).
-    exact (hitzer_le3 R R0 R1 Radd Rmul Rsub Ropp Rth A SH Hasc F HF x Hd Hx).
+    destruct (default_le4_ok sig start g Hl Hsig Hst) as (SH & Hasc & Hd).
+    exact (hitzer_le4 R R0 R1 Radd Rmul Rsub Ropp Rth A SH Hasc F HF Hd x Hx).
   Qed.
 
-  Theorem C07_inv_default_le3 : forall sig start g,
-    (length sig <= 3)%nat -> Forall (fun s => s = 1 \/ s = -1 \/ s = 0) sig ->
+  Theorem C07_inv_default_le4 : forall sig start g,
+    (length sig <= 4)%nat -> Forall (fun s => s = 1 \/ s = -1 \/ s = 0) sig ->
     (start = 0 \/ start = 1 \/ start = 2) ->
     let A := mk_default sig start g in
     forall F, filter_ok A F -> forall (x r : mv R), wfmv A x ->
@@ -164,8 +171,44 @@ Section AnyRing.
     inv_model O dv isz F A x = Ok r -> gp O A x r == one /\ gp O A r x == one.
   Proof.
     intros sig start g Hl Hsig Hst A F HF x r.
-    destruct (default_le3_ok sig start g Hl Hsig Hst) as (SH & Hasc & Hd).
-    exact (inv_le3_sound R R0 R1 Radd Rmul Rsub Ropp Rth A SH Hasc dv isz F HF Hd x r).
+    destruct (default_le4_ok sig start g Hl Hsig Hst) as (SH & Hasc & Hd).
+    exact (inv_le4_sound R R0 R1 Radd Rmul Rsub Ropp Rth A SH Hasc dv isz F HF Hd x r).
+  Qed.
+
+  (* ---------- power_supply and the iterative (Shirokov) scheme, every dimension ---------- *)
+
+  (* every `next(supply)` is x^e for the requested exponent e (left-nested power xp), for whatever
+     chains AdditionChains produced *)
+  Theorem C07_power_supply : forall A, wf_alg A = true -> forall F, filter_ok A F -> forall (x : mv R), wfmv A x ->
+    forall exps vs, power_supply O F A x exps = Ok vs ->
+    Forall2 (fun e v => 1 <= e /\ wfmv A v /\ v == xp R R0 R1 Radd Rmul Rsub Ropp A x e) exps vs.
+  Proof.
+    intros A Hwf F HF x Hx.
+    exact (power_supply_correct R R0 R1 Radd Rmul Rsub Ropp Rth A (wf_sign_hyps A Hwf) F HF x Hx).
+  Qed.
+
+  (* whenever the loop of codegen_shirokov_inv stops on a purely scalar xi (its `break`):
+     x * adj = adj * x = xi.e.   PARTIAL: that the break is reached within 2^ceil(d/2) rounds
+     (Shirokov's theorem) is not proved; without it the loop runs out and returns a wrong pair. *)
+  Theorem C07_shirokov_partial : forall A, wf_alg A = true -> forall F, filter_ok A F -> forall (x : mv R), wfmv A x ->
+    forall i xi xs cs, shirokov_run O dv isz F A x = Ok (i, xi, xs, cs) -> grades_is_0 xi = true ->
+    let adj := shirokov_adj O F A i xs cs in
+    let den := e_of O xi in
+    shirokov O dv isz F A x = Ok (adj, den) /\
+    gp O A x adj == scal den one /\ gp O A adj x == scal den one.
+  Proof.
+    intros A Hwf F HF x Hx.
+    exact (shirokov_sound_partial R R0 R1 Radd Rmul Rsub Ropp Rth A (wf_sign_hyps A Hwf) dv isz F HF x Hx).
+  Qed.
+
+  Theorem C07_inv_shirokov_partial : forall A, wf_alg A = true -> forall F, filter_ok A F -> forall (x : mv R), wfmv A x ->
+    forall i xi xs cs r, Nat.ltb (a_d A) 6 = false ->
+    shirokov_run O dv isz F A x = Ok (i, xi, xs, cs) -> grades_is_0 xi = true ->
+    (forall b, isz b = false -> Rmul b (dv R1 b) = R1) ->
+    inv_model O dv isz F A x = Ok r -> gp O A x r == one /\ gp O A r x == one.
+  Proof.
+    intros A Hwf F HF x Hx.
+    exact (inv_shirokov_sound_partial R R0 R1 Radd Rmul Rsub Ropp Rth A (wf_sign_hyps A Hwf) dv isz F HF x Hx).
   Qed.
 End AnyRing.
 Print Assumptions C07_inv_sound.
@@ -177,12 +220,15 @@ Print Assumptions C07_div.
 Print Assumptions C07_rdiv.
 Print Assumptions C07_filter_numeric.
 Print Assumptions C07_filter_symbolic.
-Print Assumptions C07_hitzer_le3.
-Print Assumptions C07_inv_le3.
-Print Assumptions C07_zde_only_singular_le3.
-Print Assumptions C07_inv_le3_complete.
-Print Assumptions C07_hitzer_default_le3.
-Print Assumptions C07_inv_default_le3.
+Print Assumptions C07_hitzer_le4.
+Print Assumptions C07_inv_le4.
+Print Assumptions C07_zde_only_singular_le4.
+Print Assumptions C07_inv_le4_complete.
+Print Assumptions C07_hitzer_default_le4.
+Print Assumptions C07_inv_default_le4.
+Print Assumptions C07_power_supply.
+Print Assumptions C07_shirokov_partial.
+Print Assumptions C07_inv_shirokov_partial.
 
 (* non-vacuity: the hypotheses hold for concrete algebras, and the model computes *)
 Example C07_ex_default_ok : default_ok (mk_default [1; -1; 0] 1 false) = true.
